@@ -241,18 +241,9 @@ Proof.
   assert (E : s2 = set_seq (final step (init 0) reuse_prefix)
                            (N.iter 65535 next_serial (seq (final step (init 0) reuse_prefix)))).
   { unfold s2. rewrite final_app. apply many_beats. repeat split; reflexivity. }
-  assert (F : (rec s2, seq s2, existsb (fun o => match o with OReuse => true | _ => false end) (snd r),
-               returns (snd r), ncalls (fst r), rd (fst r), wr (fst r), mgrQ (fst r), rec (fst r), timers (fst r),
-               quiescentb (fst r)) =
-              ([(1, {| c_id := 0; c_cmd := 33027; c_tmo := false |})], 1, true, [(1%nat, RNoExist)], 2%nat,
-               RDone, WsExit, [], [], [], true)).
-  { unfold r. rewrite E. vm_compute. reflexivity. }
-  injection F as F1 F2 F3 F4 F5 F6 F7 F8 F9 F10 F11.
-  repeat (split; [assumption|]).
-  split.
-  { apply existsb_exists in F3. destruct F3 as [o [Hin Ho]]. destruct o; try discriminate. exact Hin. }
-  repeat (split; [assumption|]).
-  now apply quiescentb_true.
+  unfold r. rewrite E. clear E. clearbody s2.
+  repeat (split; [vm_compute; auto 6|]).
+  apply quiescentb_true. vm_compute. reflexivity.
 Qed.
 
 (* The same with timers: command 0 HAS a timeout (its timer sleeps), the counter goes round, command 1 (also
@@ -277,10 +268,7 @@ Proof.
   assert (E : s2 = set_seq (final step (init 0) (up ++ [Call 33027 true; MgrStep JOk; WAct true]))
                  (N.iter 65535 next_serial (seq (final step (init 0) (up ++ [Call 33027 true; MgrStep JOk; WAct true]))))).
   { unfold s2. rewrite app_assoc, final_app. apply many_beats. repeat split; reflexivity. }
-  assert (F : (rec s2, timers s2, seq s2, snd r, ncalls (fst r), stop_closed (fst r), quiescentb (fst r)) =
-              ([(1, {| c_id := 0; c_cmd := 33027; c_tmo := true |})], [(0%nat, 1)], 1,
-               [OCall c1; OReuse; OWrite 1 c1 true; OFire 0; OReturn 1 RTimeout; OFire 1], 2%nat, false, true)).
-  { unfold r. rewrite E. vm_compute. reflexivity. }
-  injection F as F1 F2 F3 F4 F5 F6 F7.
-  repeat (split; [assumption|]). now apply quiescentb_true.
+  unfold r, c1. rewrite E. clear E. clearbody s2.
+  repeat (split; [vm_compute; auto|]).
+  apply quiescentb_true. vm_compute. reflexivity.
 Qed.
